@@ -1,7 +1,7 @@
 /-
 Model/Bytes — byte strings, big-endian integers, and the URL-style quoting used by
-`utils/bytesconv.go` (`AppendQuotedArg`, `hexbyte2int`, `decodeArgAppend`) and, identically,
-by goutil `status/query_args.go`.  Core Lean only.
+`utils/bytesconv.go` (`AppendQuotedArg`, `hexbyte2int`, `decodeArgAppend`) and, with a hex table
+that is one entry short, by goutil `status/query_args.go`.  Core Lean only.
 -/
 namespace Teleport
 
@@ -31,30 +31,49 @@ def quote : Bytes → Bytes
     if unreserved c then c :: quote cs
     else 37 :: hexUpper (c >>> 4) :: hexUpper (c &&& 15) :: quote cs
 
-/-- `hexbyte2int`: `none` = the Go code panics (table has 255 entries, index 255 is out of range);
-    `some (-1)` = not a hex digit. -/
-def hexVal (c : UInt8) : Option Int :=
-  if c == 255 then none
-  else if 48 ≤ c && c ≤ 57 then some (c.toNat - 48 : Nat)
-  else if 97 ≤ c && c ≤ 102 then some (c.toNat - 97 + 10 : Nat)
-  else if 65 ≤ c && c ≤ 70 then some (c.toNat - 65 + 10 : Nat)
-  else some (-1)
+/-- Which copy of the hex table a decoder uses. `utils/bytesconv.go` builds `hex2intTable` with
+    256 entries (every byte value has an entry); goutil `status/query_args.go` — a dependency that
+    is not part of this repository — has its own copy with 255 entries, so `hexbyte2int(0xff)`
+    there indexes out of range and panics. -/
+inductive HexTab
+  | full     -- utils/bytesconv.go: `make([]byte, 256)`
+  | short    -- goutil status/query_args.go: `make([]byte, 255)`
+deriving DecidableEq, Repr
 
-/-- `decodeArgAppend(nil, src, plus)`; `none` = Go panics (index out of range in `hex2intTable`). -/
-def unquote (plus : Bool) : Bytes → Option Bytes
+/-- `hexbyte2int` of `utils/bytesconv.go` (256-entry table): total; `-1` = not a hex digit. -/
+def hexValFixed (c : UInt8) : Int :=
+  if 48 ≤ c && c ≤ 57 then (c.toNat - 48 : Nat)
+  else if 97 ≤ c && c ≤ 102 then (c.toNat - 97 + 10 : Nat)
+  else if 65 ≤ c && c ≤ 70 then (c.toNat - 65 + 10 : Nat)
+  else -1
+
+/-- `hexbyte2int` of goutil `status/query_args.go`: `none` = the Go code panics (table has 255
+    entries, index 255 is out of range); `some (-1)` = not a hex digit. -/
+def hexVal (c : UInt8) : Option Int :=
+  if c == 255 then none else some (hexValFixed c)
+
+/-- `hexbyte2int` through table `t`. -/
+def hexValT : HexTab → UInt8 → Option Int
+  | .full, c => some (hexValFixed c)
+  | .short, c => hexVal c
+
+/-- `decodeArgAppend(nil, src, plus)` with the hex table `t`; `none` = Go panics (index out of
+    range in the 255-entry `hex2intTable`; impossible with the 256-entry one, see
+    `Lemmas/Bytes.unquote_full_isSome`). -/
+def unquote (t : HexTab) (plus : Bool) : Bytes → Option Bytes
   | [] => some []
   | c :: rest =>
     if c == 37 then
       match rest with
       | h1 :: h2 :: rest' =>
-        match hexVal h1, hexVal h2 with
+        match hexValT t h1, hexValT t h2 with
         | some x1, some x2 =>
-          if x1 < 0 || x2 < 0 then (unquote plus (h1 :: h2 :: rest')).map (c :: ·)
-          else (unquote plus rest').map ((x1 * 16 + x2).toNat.toUInt8 :: ·)
+          if x1 < 0 || x2 < 0 then (unquote t plus (h1 :: h2 :: rest')).map (c :: ·)
+          else (unquote t plus rest').map ((x1 * 16 + x2).toNat.toUInt8 :: ·)
         | _, _ => none
       | _ => some (c :: rest)
-    else if plus && c == 43 then (unquote plus rest).map (32 :: ·)
-    else (unquote plus rest).map (c :: ·)
+    else if plus && c == 43 then (unquote t plus rest).map (32 :: ·)
+    else (unquote t plus rest).map (c :: ·)
 termination_by l => l.length
 
 end Bytes
